@@ -100,7 +100,8 @@ pub fn run() {
         if let Some(clap_err) = e.downcast_ref::<clap::Error>() {
             match clap_err.kind() {
                 clap::error::ErrorKind::DisplayHelp | clap::error::ErrorKind::DisplayVersion => {
-                    print!("{clap_err}");
+                    // Ignore write errors (e.g. a closed pipe): print! would panic on them
+                    let _ = write!(std::io::stdout(), "{clap_err}");
                     return;
                 }
                 _ => {}
